@@ -7,10 +7,11 @@
 From Coq Require Import List NArith Bool.
 Import ListNotations.
 From TV Require Import Lib.Obs C06.Model C06.Spec C06.Run C06.ProofsBase C06.ProofsRefine C06.ProofsProg
-  C06.ProofsLaws C06.ProofsValid C06.ProofsTop.
+  C06.ProofsLaws C06.ProofsValid C06.ProofsTop Gen.C06_src Gen.C06_equiv.
 
 (* REF — for every program (any sequence of add / set / delete / get / get_list / membership /
-   iteration / get_all / parse_line incl. continuation / str / copy / parse / parse(str)) over any
+   iteration / get_all / parse_line incl. continuation / str / copy / parse / parse(str) / the MutableMapping
+   mixins get, pop, setdefault, items, len, update / the dict-style constructor / ==) over any
    number of objects, started in any store satisfying the invariant, every command returns what
    the cache-free multimap returns, the stores stay related, and the invariant is kept. *)
 Theorem C06_refines_multimap : forall cs st, Forall inv st ->
@@ -63,6 +64,20 @@ Theorem C06_read_is_comma_join : forall n h, inv h ->
 Proof. exact get_reads_join. Qed.
 Print Assumptions C06_read_is_comma_join.
 
+(* the MutableMapping view: items() lists one (name, comma-joined values) pair per key in insertion order,
+   and (like every mapping-style read) changes nothing visible *)
+Theorem C06_items_are_comma_joined : forall h, inv h ->
+  fst (items h) = RPairs (map (fun kv => (fst kv, join [c_comma] (snd kv))) (as_list h)) /\
+  abs (snd (items h)) = abs h /\ inv (snd (items h)).
+Proof. exact items_combined. Qed.
+Print Assumptions C06_items_are_comma_joined.
+
+(* == is reflexive on the combined view, so objects with the same list store compare equal *)
+Theorem C06_same_store_compares_equal : forall h h', inv h -> inv h' -> as_list h' = as_list h ->
+  exists a, fst (items h) = RPairs a /\ fst (items h') = RPairs a /\ dict_eqb a a = true.
+Proof. exact same_store_compare_equal. Qed.
+Print Assumptions C06_same_store_compares_equal.
+
 (* any name reported present can be deleted (this is `delete_total`, refuted before fix 8cd6af7):
    the delete succeeds, every case variant is then absent, other names and the key order are untouched *)
 Theorem C06_present_name_can_be_deleted : forall n h, contains n h = true ->
@@ -105,10 +120,11 @@ Theorem C06_copy_is_equal_map : forall h, inv h -> forallb pair_valid (get_all h
 Proof. exact copy_equal. Qed.
 Print Assumptions C06_copy_is_equal_map.
 
-(* ... and independent: commands that do not target object i (including every copy / parse, and any
-   operation on a copy of i) leave object i exactly as it was *)
+(* ... and independent: commands that do not target object i (including every copy / parse / dict-style
+   construction, and any operation on or comparison of other objects, e.g. a copy of i) leave object i
+   exactly as it was, cache included *)
 Theorem C06_objects_are_independent : forall cs st i,
-  Forall (fun c => forall o, c <> On i o) cs -> (i < length st)%nat ->
+  Forall (fun c => ~ touches c i) cs -> (i < length st)%nat ->
   nth_error (snd (run_cmds cs st)) i = nth_error st i.
 Proof. exact run_cmds_other. Qed.
 Print Assumptions C06_objects_are_independent.
@@ -130,8 +146,35 @@ Theorem C06_reachable_maps_copy_and_roundtrip : forall cs h,
 Proof. exact reachable_copy_roundtrip. Qed.
 Print Assumptions C06_reachable_maps_copy_and_roundtrip.
 
+(* ... and every such object compares equal -- with the class's own == (Mapping.__eq__, dict(items())) -- to
+   its copy and to its serialise/parse round trip *)
+Theorem C06_reachable_maps_equal_copy_and_roundtrip : forall cs h,
+  forallb valid_cmd cs = true -> In h (snd (run_cmds cs [empty_h])) ->
+  exists hc hp a, copy h = (RUnit, hc) /\ parse (to_string h) = (RUnit, hp) /\
+    fst (items h) = RPairs a /\ fst (items hc) = RPairs a /\ fst (items hp) = RPairs a /\
+    dict_eqb a a = true.
+Proof. exact reachable_equal_to_copy_and_roundtrip. Qed.
+Print Assumptions C06_reachable_maps_equal_copy_and_roundtrip.
+
 (* the precondition is needed: a map holding a line that add() would reject cannot be copied *)
 Theorem C06_invalid_line_blocks_copy : forall h,
   forallb pair_valid (get_all h) = false -> fst (copy h) = RErr EInput.
 Proof. exact copy_rejects. Qed.
 Print Assumptions C06_invalid_line_blocks_copy.
+
+(* SRC — the pieces regenerated from tornado/httputil.py on every run (translators/c06_src.py -> Gen/C06_src.v)
+   are the model's: _normalize_header translated expression by expression; HTTP_WHITESPACE; the character
+   classes of _ABNF.tchar, VCHAR | obs_text, and the characters allowed inside a field value (all c : N) *)
+Theorem C06_source_normalize_is_model : forall n, src_normalize n = normalize n.
+Proof. exact src_normalize_is_model. Qed.
+Print Assumptions C06_source_normalize_is_model.
+
+Theorem C06_source_character_classes_are_model : forall c,
+  in_ranges src_tchar_ranges c = is_tchar c /\
+  in_ranges (src_vchar_ranges ++ src_obs_ranges) c = is_vchar c /\
+  in_ranges (src_vchar_ranges ++ src_obs_ranges) c || existsb (N.eqb c) src_fv_extra = is_fv_char c /\
+  existsb (N.eqb c) src_ws = is_ws c.
+Proof.
+  intro c. repeat split; [apply src_tchar_is_model|apply src_vchar_is_model|apply src_fv_char_is_model|apply src_ws_is_model].
+Qed.
+Print Assumptions C06_source_character_classes_are_model.
